@@ -36,6 +36,38 @@ Theorem cache_transparent :
                      (map (lift out err st) ps ++ tail) s0 history.
 Proof. exact cached_eq_fresh. Qed.
 
+(* The same statement with what a source IS written out: a (name, content) pair.  The hypothesis is
+   injectivity of the key hash on PAIRS -- not on the text name ++ content. *)
+Theorem cache_transparent_on_named_sources :
+  forall (out err st : Type) (hash : string * string -> N) (inject : string * string -> out) (clone_out : out -> out) (cache_ok : out -> bool)
+         (is_value is_compiled : out -> bool) (e_value_as_input e_missing e_not_compiled : err)
+         (X : list (string * string)),
+    (forall n1 c1 n2 c2, In (n1, c1) X -> In (n2, c2) X -> hash (n1, c1) = hash (n2, c2) -> n1 = n2 /\ c1 = c2) ->
+    (forall o, cache_ok o = true -> clone_out o = o) ->
+    forall ps : list (pstage out err), NoDup (map (p_name out err) ps) ->
+    forall tail : list (stage out err st),
+      Forall (fun t => s_cacheable out err st t = false) tail ->
+      Forall (state_blind out err st) tail ->
+      forall (s0 : st) (history : list (request (string * string))),
+        Forall (fun r => In (req_src r) X) history ->
+        exec_cached (string * string) out err st hash inject clone_out cache_ok is_value is_compiled e_value_as_input e_missing e_not_compiled
+                    (map (lift out err st) ps ++ tail) s0 history
+        = exec_fresh (string * string) out err st hash inject clone_out cache_ok is_value is_compiled e_value_as_input e_missing e_not_compiled
+                     (map (lift out err st) ps ++ tail) s0 history.
+Proof.
+  intros out err st hash inject clone_out cache_ok is_value is_compiled e1 e2 e3 X Hinj.
+  apply cached_eq_fresh. intros [n1 c1] [n2 c2] H1 H2 E. destruct (Hinj n1 c1 n2 c2 H1 H2 E) as [-> ->]. reflexivity.
+Qed.
+
+(* ... and a key that sees only the concatenation name ++ content can never satisfy that hypothesis on
+   sources whose name/content boundary is shifted: ("chunk1", "2 - 3") and ("chunk12", " - 3") *)
+Theorem concatenation_key_is_not_injective_on_pairs :
+  forall h : string -> N,
+    exists n1 c1 n2 c2, (n1, c1) <> (n2, c2) /\ h (n1 ++ c1)%string = h (n2 ++ c2)%string.
+Proof.
+  intro h. exists "chunk1", "2 - 3", "chunk12", " - 3". split; [discriminate|reflexivity].
+Qed.
+
 (* The cache alone (same stages, same VM, cache cleared before every request): no assumption
    on the uncacheable stages is needed. *)
 Theorem cache_transparent_same_stage_state :
@@ -113,7 +145,7 @@ Proof. exact old_protocol_dropped_heap. Qed.
    bytecode/src/heap/mod.rs, the standard pipelines have the shape the theorem assumes, and
    compile_internal stops at the stage called "vm" *)
 Theorem model_matches_source :
-  heap_clone_is_empty = true /\ compiled_outputs_are_cached = false /\ cacheable_stages_stateless = true /\ compile_break_name = "vm" /\
+  heap_clone_is_empty = true /\ compiled_outputs_are_cached = false /\ cache_key_components_delimited = true /\ cacheable_stages_stateless = true /\ compile_break_name = "vm" /\
   shape_ok standard_stages = true /\ shape_ok compilation_stages = true /\ shape_ok modules_stages = true.
 Proof. vm_compute. repeat split. Qed.
 
